@@ -62,6 +62,13 @@ impl CounterCollection {
         let new_count = counter.count();
         let info = self.info_mut(counter.known_kind());
 
+        // Override an input-based counter of the same kind. Otherwise its
+        // per-sample counts would be appended after this count and be read
+        // shifted by one sample.
+        if info.count_input.take().is_some() {
+            info.counts.clear();
+        }
+
         if let Some(old_count) = info.counts.first_mut() {
             *old_count = new_count;
         } else {
